@@ -741,3 +741,13 @@ Proof.
   destruct (own_response _ _ _ _ _ _ _ _ _ R' C) as (Mid & _).
   eapply ids_distinct; try eassumption. rewrite C. cbn. congruence.
 Qed.
+
+(* the request id counter only ever advances: no step hands an id back *)
+Lemma step_next_req : forall leaky s e s', step leaky s e = Some s' ->
+  next_req s' = next_req s \/ next_req s' = go_nextRequestID (next_req s).
+Proof.
+  intros leaky s e s' St. pose proof (step_frame _ _ _ _ St) as F.
+  destruct e; try (destruct F as (_ & _ & _ & F); left; exact F).
+  cbn in St. destruct (cs s t); try discriminate. destruct (open_blocked s k); try discriminate.
+  inversion St; subst. right. destruct k; reflexivity.
+Qed.
